@@ -4,8 +4,11 @@ import (
 	"errors"
 	"io"
 	"net"
+	"os"
 	"sync"
 	"time"
+
+	rt "github.com/innovationb1ue/RedisGO/verifrt"
 
 	"verif/model"
 )
@@ -17,10 +20,11 @@ type Conn struct {
 	cond    *sync.Cond
 	in      []byte // bytes the server has not read yet
 	chunks  [][]byte
-	out     []byte // bytes written by the server
-	closed  bool   // server side closed
-	eof     bool   // harness closed its writing side
-	failW   bool   // writes fail (peer gone)
+	out     []byte    // bytes written by the server
+	closed  bool      // server side closed
+	eof     bool      // harness closed its writing side
+	failW   bool      // writes fail (peer gone)
+	wdl     time.Time // write deadline set by the server (zero: none)
 	Name    string
 	Writes  int
 	ReadLog []int // sizes of the reads the server performed
@@ -37,11 +41,43 @@ type addr string
 func (a addr) Network() string { return "mem" }
 func (a addr) String() string  { return string(a) }
 
-func (c *Conn) LocalAddr() net.Addr                { return addr("server") }
-func (c *Conn) RemoteAddr() net.Addr               { return addr(c.Name) }
-func (c *Conn) SetDeadline(t time.Time) error      { return nil }
-func (c *Conn) SetReadDeadline(t time.Time) error  { return nil }
-func (c *Conn) SetWriteDeadline(t time.Time) error { return nil }
+func (c *Conn) LocalAddr() net.Addr               { return addr("server") }
+func (c *Conn) RemoteAddr() net.Addr              { return addr(c.Name) }
+func (c *Conn) SetDeadline(t time.Time) error     { return c.SetWriteDeadline(t) }
+func (c *Conn) SetReadDeadline(t time.Time) error { return nil }
+
+// SetWriteDeadline is honoured the way a net.Conn honours it: once the deadline has passed every
+// Write fails until a new deadline is set.  The deadline is compared with the clock it was most
+// probably computed from: the virtual clock of the instrumented packages (memdb, resp, util) or
+// the real one (server) - whichever is nearer to it.
+func (c *Conn) SetWriteDeadline(t time.Time) error {
+	c.mu.Lock()
+	c.wdl = t
+	c.mu.Unlock()
+	return nil
+}
+
+func (c *Conn) writeExpired() bool {
+	if c.wdl.IsZero() {
+		return false
+	}
+	realNow := time.Now()
+	now := realNow
+	if w := rt.CurWorld(); w != nil {
+		v := w.TimeNow()
+		dv, dr := c.wdl.Sub(v), c.wdl.Sub(realNow)
+		if dv < 0 {
+			dv = -dv
+		}
+		if dr < 0 {
+			dr = -dr
+		}
+		if dv < dr {
+			now = v
+		}
+	}
+	return !now.Before(c.wdl)
+}
 
 // Read (server side) returns the next scripted chunk if chunks were given, else whatever is buffered.
 func (c *Conn) Read(p []byte) (int, error) {
@@ -75,6 +111,9 @@ func (c *Conn) Write(p []byte) (int, error) {
 	defer c.mu.Unlock()
 	if c.closed || c.failW {
 		return 0, errors.New("write on closed connection")
+	}
+	if c.writeExpired() {
+		return 0, os.ErrDeadlineExceeded
 	}
 	c.out = append(c.out, p...)
 	c.Writes++
